@@ -19,6 +19,7 @@ class Frame:
         self.finfo = finfo
         self.contract = contract
         self.loops = loop_nodes(finfo.node)
+        self.ctypes = dict(getattr(finfo.node, 'ctypes', {}) or {})
 
 
 class Exec(CMixin, ExprMixin, StmtMixin, CallMixin):
@@ -258,6 +259,10 @@ class Exec(CMixin, ExprMixin, StmtMixin, CallMixin):
         old.vars = st.old_vars
         old.heap = st.old_heap
         env = {'result': result, '__exc__': exc}
+        # parameters in a postcondition denote their values on entry (C parameters are locals)
+        st = st.fork()
+        keep_pc = st.pc
+        st.vars.update(st.old_vars)
         for n_, text in enumerate(contract.ensures):
             g = self.eval_spec(text, st, env=env, old_state=old)
             self.oblige('ensures', g, st, finfo.node, 'postcondition: ' + text, detail='%d' % n_)
